@@ -105,6 +105,8 @@ func genMatcher(r *Rng, w *World) Matcher {
 			other = Pick(r, vals)
 		}
 		m.Value = "(" + q(present) + "|" + q(other) + ")"
+	case x < 76:
+		m.Value = "(?i)" + q(strings.ToUpper(present))
 	case x < 80:
 		m.Value = "[a-m].*"
 	case x < 86:
